@@ -195,7 +195,9 @@ def query_traversal(node, callback, is_table=False, is_target=False, parent_quer
                 node.from_arg = node_out
 
     elif isinstance(node, ast.WindowFunction):
-        query_traversal(node.function, callback, parent_query=parent_query)
+        node_out = query_traversal(node.function, callback, parent_query=parent_query)
+        if node_out is not None:
+            node.function = node_out
         if node.partition is not None:
             array = []
             for node2 in node.partition:
